@@ -57,6 +57,7 @@ static void run_op(oprec *o) {
         } else if (!strcmp(o->op, "walk")) {
             qvector_obj_t it; memset(&it, 0, sizeof it);
             V->lock(V);
+            free(V->getat(V, 0, true));         /* a locking method under the caller's own hold: the lock must nest */
             while (V->getnext(V, &it, false) && o->nouts < 64) o->outs[o->nouts++][0] = *(int *) it.data;
             V->unlock(V);
             o->out = o->nouts;
@@ -77,6 +78,7 @@ static void run_op(oprec *o) {
         } else if (!strcmp(o->op, "walk")) {
             qlist_obj_t it; memset(&it, 0, sizeof it);
             L->lock(L);
+            { size_t z; free(L->getat(L, 0, &z, true)); }
             while (L->getnext(L, &it, false) && o->nouts < 64) o->outs[o->nouts++][0] = *(int *) it.data;
             L->unlock(L);
             o->out = o->nouts;
@@ -89,6 +91,7 @@ static void run_op(oprec *o) {
         else if (!strcmp(o->op, "walk")) {
             qhashtbl_obj_t it; memset(&it, 0, sizeof it);
             HT->lock(HT);
+            { size_t z; free(HT->get(HT, keyname(1), &z, true)); }
             while (HT->getnext(HT, &it, false) && o->nouts < 64) { o->outs[o->nouts][0] = keyof(it.name); o->outs[o->nouts++][1] = *(int *) it.data; }
             HT->unlock(HT);
             o->out = o->nouts;
@@ -101,6 +104,7 @@ static void run_op(oprec *o) {
         else if (!strcmp(o->op, "walk")) {
             qtreetbl_obj_t it; memset(&it, 0, sizeof it);
             TT->lock(TT);
+            (void) TT->find_nearest(TT, keyname(1), strlen(keyname(1)) + 1, false);     /* as in the documented walk-from-a-key pattern */
             while (TT->getnext(TT, &it, false) && o->nouts < 64) { o->outs[o->nouts][0] = keyof(it.name); o->outs[o->nouts++][1] = *(int *) it.data; }
             TT->unlock(TT);
             o->out = o->nouts;
@@ -113,6 +117,7 @@ static void run_op(oprec *o) {
         else if (!strcmp(o->op, "walk")) {
             qlisttbl_obj_t it; memset(&it, 0, sizeof it);
             LT->lock(LT);
+            { size_t z; free(LT->get(LT, keyname(1), &z, true)); }
             while (LT->getnext(LT, &it, NULL, false) && o->nouts < 64) { o->outs[o->nouts][0] = keyof(it.name); o->outs[o->nouts++][1] = *(int *) it.data; }
             LT->unlock(LT);
             o->out = o->nouts;
@@ -156,6 +161,11 @@ static void emit_ops(vh_buf *b, int pairs) {
     vh_bprintf(b, "]");
 }
 
+/* forced unlocks: a thread whose trylock has failed MAX_MUTEX_LOCK_WAIT+1 times in a row is about to "force" the lock open */
+static __thread long spin_fails;
+static volatile long forced;
+static void h_lockfail(void) { if (++spin_fails == MAX_MUTEX_LOCK_WAIT + 1) { __sync_fetch_and_add(&forced, 1); spin_fails = 0; } }
+
 /* ------------------------------------------------------------------ deterministic scheduler */
 static sem_t go[MAXT], back;
 static __thread int me = -1; static __thread int depth = 0;
@@ -163,7 +173,7 @@ static volatile int finished[MAXT];
 static volatile long lclock;
 static void park(void) { sem_post(&back); sem_wait(&go[me]); }
 static void h_before(void) { if (me >= 0 && depth == 0) park(); }
-static void h_locked(void) { if (me >= 0) depth++; }
+static void h_locked(void) { spin_fails = 0; if (me >= 0) depth++; }
 static void h_unlocked(void) { if (me >= 0) { depth--; if (depth == 0) park(); } }
 static void *worker_sched(void *arg) {
     me = (int) (long) arg; depth = 0;
@@ -197,7 +207,7 @@ static int run_sched(const char *progf, const char *schedf, const char *outf) {
     if (read_program(progf) <= 0) return 2;
     FILE *sf = fopen(schedf, "r"); if (!sf) return 2;
     vh_open(outf);
-    vh_hook_before_lock = h_before; vh_hook_locked = h_locked; vh_hook_unlocked = h_unlocked;
+    vh_hook_before_lock = h_before; vh_hook_locked = h_locked; vh_hook_unlocked = h_unlocked; vh_hook_lock_failed = h_lockfail;
     int pairs = (K >= K_HASHTBL);
     char line[4096]; vh_buf b = {0};
     for (int t = 0; t < MAXT; t++) sem_init(&go[t], 0, 0);
@@ -216,7 +226,7 @@ static int run_sched(const char *progf, const char *schedf, const char *outf) {
         for (int again = 1; again;) { again = 0; for (int t = 0; t < NT; t++) if (!finished[t]) { sem_post(&go[t]); sem_wait(&back); again = 1; } }
         alarm(0);
         for (int t = 0; t < NT; t++) pthread_join(th[t], NULL);
-        vh_bprintf(&b, "{\"kind\":\"%s\",\"init\":[],", kindname);
+        vh_bprintf(&b, "{\"kind\":\"%s\",\"forced\":%ld,\"init\":[],", kindname, forced); forced = 0;
         emit_ops(&b, pairs);
         vh_bprintf(&b, ",\"final\":");
         snapshot(&b);
@@ -262,7 +272,7 @@ static void *worker_stress(void *arg) {
         if (t == 0) {
             vh_buf fb = {0};
             snapshot(&fb); vh_bprintf(&fb, "%s", "");
-            vh_bprintf(&sb, "{\"kind\":\"%s\",\"init\":%s,", kindname, prev_final);
+            vh_bprintf(&sb, "{\"kind\":\"%s\",\"forced\":%ld,\"init\":%s,", kindname, forced, prev_final); forced = 0;
             emit_ops(&sb, K >= K_HASHTBL);
             vh_bprintf(&sb, ",\"final\":%s}", fb.p);
             vh_bflush(&sb);
@@ -274,6 +284,7 @@ static void *worker_stress(void *arg) {
 }
 static int run_stress(int threads, int opsper, int rounds, unsigned seed, const char *outf) {
     NT = threads; S_OPS = opsper; S_ROUNDS = rounds; S_SEED = seed;
+    vh_hook_locked = h_locked; vh_hook_lock_failed = h_lockfail;
     vh_open(outf);
     mk();
     prev_final = vh_malloc(4); strcpy(prev_final, "[]");
